@@ -28,3 +28,31 @@ func BadParam(table string) string { return "SELECT * FROM " + table }
 func BadSprintf(col string) string { return fmt.Sprintf("SELECT %s FROM t", col) }
 
 func BadJoin(cols []string) string { return "SELECT " + strings.Join(cols, ", ") }
+
+func isDir(s string) bool { return s == "ASC" || s == "DESC" }
+
+func isOp(s string) bool {
+	switch s {
+	case "=", "<", ">":
+		return true
+	}
+	return false
+}
+
+func anyNonEmpty(s string) bool { return s != "" }
+
+// GoodPredicateGuard: a membership predicate of the module establishes a finite set.
+func GoodPredicateGuard(dir, op string) string {
+	if !isDir(dir) || !isOp(op) {
+		return ""
+	}
+	return "ORDER BY x " + dir + " " + op
+}
+
+// BadPredicateGuard: the predicate accepts anything non-empty.
+func BadPredicateGuard(dir string) string {
+	if !anyNonEmpty(dir) {
+		return ""
+	}
+	return "ORDER BY x " + dir
+}
